@@ -42,6 +42,24 @@ def capture(source, **opts):
                          'module': isinstance(namespace, ast.Module), 'mentions': b.new_mention_count(), 'should': shoulds, 'nrefs': len(b.references)})
             objs.append(b)
         rec['table'] = rows
+        # namespace tree, owner of every binding, namespace every reference is written in
+        try:
+            from python_minifier.rename.renamer import reference_site
+        except ImportError:
+            reference_site = lambda n: n
+        owners, refs = [], set()
+        for i, (namespace, b) in enumerate(all_bindings(module)):
+            owners.append(nsid(namespace))
+            for node in b.references:
+                site = reference_site(node)
+                ns = getattr(site, 'namespace', None)
+                if ns is not None and not (site is ns):
+                    refs.add((i, nsid(ns)))
+                elif ns is not None:
+                    refs.add((i, nsid(getattr(ns, 'namespace', ns)) if site is not module else 0))
+        rec['owners'] = owners
+        rec['refs'] = sorted(refs)
+        rec['parents'] = sorted((i, nsid(n.namespace)) for n, i in list(ns_ids.items()) if not isinstance(n, ast.Module))
         rec['prefix_globals'] = bool(prefix_globals)
         rec['preserved'] = list(preserved_globals or [])
         rec['tainted'] = bool(getattr(module, 'tainted', False))
@@ -68,6 +86,20 @@ def coq_binding(row):
                coq_opt_text(row['reserved']), 'true' if row['module'] else 'false', row['mentions']))
 
 
+def coq_rb(row, owner, final):
+    return ('{| r_id := %d%%N; r_owner := %d%%N; r_orig := %s; r_final := %s; r_scope := [%s] |}'
+            % (row['id'], owner, coq_opt_text(row['name']), coq_opt_text(final), '; '.join('%d%%N' % s for s in row['scope'])))
+
+
+def legR_resolution_case(rec):
+    """premises of C03_resolution_preserved on the real table: every reference's chain to the owner lies in the reservation
+    scope; and its conclusion: wherever the original spelling resolved to the binding, the final spelling does"""
+    rbs = '[' + '; '.join(coq_rb(r, o, f) for r, o, f in zip(rec['table'], rec['owners'], rec['finals'])) + ']'
+    par = '[' + '; '.join('(%d%%N, %d%%N)' % p for p in rec['parents']) + ']'
+    refs = '[' + '; '.join('(%d%%N, %d%%N)' % p for p in rec['refs']) + ']'
+    return 'resolution_check %s %s %s' % (par, rbs, refs)
+
+
 def legR_case(rec):
     bs = '[' + '; '.join(coq_binding(r) for r in rec['table']) + ']'
     tbl = '[' + '; '.join('(%d%%N, [%s])' % (r['id'], '; '.join('true' if x else 'false' for x in r['should'])) for r in rec['table']) + ']'
@@ -76,7 +108,7 @@ def legR_case(rec):
     return ('forallb wf_bindingb %s && finals_eqb (run_real %s %s %s %s) %s' % (bs, tbl, 'true' if rec['prefix_globals'] else 'false', bs, rg, finals))
 
 
-HEADER_R = ['From PM Require Import Model.Base Model.Renamer Model.RenamerRun Proofs.RenamerProofs.', 'Open Scope bool_scope.']
+HEADER_R = ['From PM Require Import Model.Base Model.Renamer Model.RenamerRun Proofs.RenamerProofs Model.Resolve Model.ResolveRun.', 'Open Scope bool_scope.']
 
 
 def leg_R(res, cases_src, tag):
@@ -96,6 +128,9 @@ def leg_R(res, cases_src, tag):
         nren += sum(1 for r, f in zip(rec['table'], rec['finals']) if r['name'] != f)
         cases.append(legR_case(rec))
         kept.append((src, opts))
+        if rec.get('refs') is not None:
+            cases.append(legR_resolution_case(rec))
+            kept.append((src, opts))
     n, failing, raw = common.run_cases(tag, HEADER_R, cases, shard=60)
     if failing is None:
         res.broken.append(('correspondence', 'leg R: renamer model evaluation failed: ' + raw[-500:]))
